@@ -45,7 +45,7 @@ type c06case struct {
 	k       int
 	mode    string // seq | nw | conc | wit | wit0
 	seq     []int
-	perturb int // 0 none, 1 yields, 2 yields + micro-sleeps
+	perturb int  // 0 none, 1 yields, 2 yields + micro-sleeps
 	sub     bool // the gateway, its catch events and the branch tasks sit inside an embedded sub-process
 }
 
